@@ -264,7 +264,7 @@ impl Generics {
                     "Vec" | "VecDeque" | "HashSet" => Ok(Ty::List(Box::new(self.ty(args[0])?))),
                     "HashMap" if args.len() == 2 => Ok(Ty::List(Box::new(Ty::Tuple(vec![self.ty(args[0])?, self.ty(args[1])?])))),
                     "Infallible" => Ok(Ty::Err),
-                    "BoxSubscription" | "BoxSubscriptionThreads" => Ok(Ty::Sub),
+                    "BoxSubscription" | "BoxSubscriptionThreads" | "TaskHandle" => Ok(Ty::Sub),
                     _ if CELLS.contains(&name.as_str()) && args.len() == 1 => self.ty(args[0]),
                     _ => {
                         if tp.path.segments.len() == 1 && args.is_empty() {
@@ -355,6 +355,8 @@ pub struct StructInfo {
     pub root_ty: Option<Ty>,
     /// Lean prefix of the functions (`Rx.Gen.RcObserver.` for structs of another module)
     pub prefix: String,
+    /// fields that are shared cells (`MutRc<..>` / `MutArc<..>` / `Rc<..>` / `Arc<..>`): a clone is another name
+    pub cells: Vec<String>,
 }
 
 impl StructInfo {
@@ -834,7 +836,10 @@ impl<'a> Fx<'a> {
                     let mn = mc.method.to_string();
                     if mc.args.is_empty() && matches!(mn.as_str(), "rc_deref_mut" | "rc_deref" | "borrow_mut" | "clone") {
                         if let Ok(pl) = self.place(&mc.receiver) {
-                            let is_state = match self.place_ty(&pl) {
+                            let cell_field = pl.root_self
+                                && pl.path.len() == 1
+                                && matches!(&pl.path[0], Seg::Field(f) if self.strukt.cells.contains(f));
+                            let is_state = cell_field || match self.place_ty(&pl) {
                                 Some(Ty::Named(_)) => true,
                                 Some(Ty::Opt(t)) => matches!(*t, Ty::Named(_) | Ty::List(_) | Ty::Obs) || mn != "clone",
                                 Some(Ty::List(_)) => mn != "clone",
@@ -1558,7 +1563,14 @@ impl<'a> Fx<'a> {
                                 }
                                 observers += 1;
                             }
-                            _ => vals.push(format!("Rs.ToVal.toVal {}", self.expr(c)?)),
+                            _ => {
+                                // another cell of the operator handed to the task (its body is translated as a function
+                                // on the operator's state, see `tasks` in the table), or a plain value
+                                match self.place(c) {
+                                    Ok(pl) if pl.root_self && pl.path.len() == 1 && matches!(self.place_ty(&pl), Some(Ty::Opt(_))) => {}
+                                    _ => vals.push(format!("Rs.ToVal.toVal {}", self.expr(c)?)),
+                                }
+                            }
                         }
                     }
                     if observers != 1 {
@@ -1666,6 +1678,13 @@ impl<'a> Fx<'a> {
                 return self.struct_call(si, &name, &m.receiver, &args);
             }
             return bail("the slot observer (RcObserver) is not available in this module");
+        }
+        // a cell holding an optional subscription (blanket impl of src/subscription.rs)
+        if rt == Some(Ty::Opt(Box::new(Ty::Sub))) && matches!((name.as_str(), nargs), ("unsubscribe", 0) | ("is_closed", 0)) {
+            if let Some(si) = self.ctx.structs.get("RcSubscription") {
+                return self.struct_call(si, &name, &m.receiver, &args);
+            }
+            return bail("the cell subscription (RcSubscription) is not available in this module");
         }
         // the scheduler
         if rt == Some(Ty::Sched) && name == "schedule" && nargs == 2 {
@@ -2287,6 +2306,20 @@ fn generics_for(gen: &syn::Generics, err_names: &[String], ctx: &Ctx, hints: &Ha
     Ok(g)
 }
 
+/// `MutRc<..>` / `MutArc<..>` / `Rc<..>` / `Arc<..>` (also behind a type alias): a shared cell
+fn is_cell_type(t: &Type, ctx: &Ctx) -> bool {
+    if let Type::Path(tp) = t {
+        let n = last_seg(&tp.path);
+        if matches!(n.as_str(), "MutRc" | "MutArc" | "Rc" | "Arc") {
+            return true;
+        }
+        if let Some((_, body)) = ctx.aliases.get(&n) {
+            return is_cell_type(body, ctx);
+        }
+    }
+    false
+}
+
 fn is_phantom(t: &Type) -> bool {
     matches!(t, Type::Path(tp) if PHANTOMS.contains(&last_seg(&tp.path).as_str()))
 }
@@ -2323,6 +2356,72 @@ pub fn translate_enum(items: &[Item], name: &str, ctx: &mut Ctx) -> Res<String> 
     Ok(s)
 }
 
+/// The body of a scheduled task that is a free `fn` taking clones of the operator's cells
+/// (`fn debounce_task((observer, value): (MutArc<Option<O>>, MutArc<Option<Item>>))`): a function on the operator's
+/// state, its parameters being other names for the fields given in the table.
+pub fn translate_task_fn(items: &[Item], fname: &str, obs: &str, fields: &[&str], ctx: &Ctx) -> Res<String> {
+    let f = items
+        .iter()
+        .find_map(|i| match i {
+            Item::Fn(f) if f.sig.ident == fname => Some(f),
+            _ => None,
+        })
+        .ok_or(format!("fn {} not found", fname))?;
+    let si = ctx.structs.get(obs).ok_or(format!("struct {} not translated", obs))?;
+    let mut names = vec![];
+    fn idents(p: &Pat, out: &mut Vec<String>) {
+        match p {
+            Pat::Ident(pi) => out.push(ident(&pi.ident.to_string())),
+            Pat::Tuple(t) => t.elems.iter().for_each(|e| idents(e, out)),
+            Pat::Type(t) => idents(&t.pat, out),
+            _ => {}
+        }
+    }
+    for a in &f.sig.inputs {
+        if let FnArg::Typed(pt) = a {
+            idents(&pt.pat, &mut names);
+        }
+    }
+    if names.len() != fields.len() {
+        return bail(format!("task fn {}: {} parameters, {} fields declared", fname, names.len(), fields.len()));
+    }
+    let mut aliases = HashMap::new();
+    for (n, fl) in names.iter().zip(fields.iter()) {
+        if si.field_ty(fl).is_none() {
+            return bail(format!("task fn {}: no field `{}` in {}", fname, fl, obs));
+        }
+        aliases.insert(n.clone(), Place { root_self: true, local: String::new(), path: vec![Seg::Field(fl.to_string())] });
+    }
+    let mut fx = Fx {
+        strukt: si,
+        ctx,
+        lines: vec![],
+        ind: 1,
+        tmp: 0,
+        locals: HashMap::new(),
+        aliases,
+        effectful: true,
+        newtype: false,
+        payload_of: HashMap::new(),
+        extra: vec![],
+        fname: format!("task_{}", fname),
+    };
+    let n = f.block.stmts.len();
+    for (k, st) in f.block.stmts.iter().enumerate() {
+        if k + 1 == n && matches!(st, Stmt::Expr(Expr::Call(_), None)) {
+            continue; // `NormalReturn::new(())`
+        }
+        fx.stmt(st).map_err(|e| format!("task fn {}: {}", fname, e))?;
+    }
+    let mut d = format!("def {}.task_{} (self0 : {}) : Option ({} × Rs.Out) := do\n  let mut self_ := self0\n  let mut out : Rs.Out := []\n", obs, fname, obs, obs);
+    for l in fx.lines {
+        d += &l;
+        d.push('\n');
+    }
+    d += "  return (self_, out)\n\n";
+    Ok(d)
+}
+
 /// A struct without translated methods (the content of a shared cell, e.g. `ObserverData` of merge_all).
 pub fn translate_plain_struct(items: &[Item], name: &str, ctx: &mut Ctx, hints: &HashMap<String, Ty>) -> Res<String> {
     let st = find_struct(items, name).ok_or(format!("struct {} not found", name))?;
@@ -2346,7 +2445,7 @@ pub fn translate_plain_struct(items: &[Item], name: &str, ctx: &mut Ctx, hints: 
         writeln!(s, "  {} : {}", ident(n), t.lean()).unwrap();
     }
     s.push('\n');
-    ctx.structs.insert(name.to_string(), StructInfo { name: name.to_string(), fields, methods: HashMap::new(), root_ty: None, prefix: String::new() });
+    ctx.structs.insert(name.to_string(), StructInfo { name: name.to_string(), fields, methods: HashMap::new(), root_ty: None, prefix: String::new(), cells: vec![] });
     Ok(s)
 }
 
@@ -2372,9 +2471,11 @@ pub fn translate_observer(items: &[Item], name: &str, ctx: &mut Ctx, hints: &Has
         methods: HashMap::new(),
         root_ty: None,
         prefix: String::new(),
+        cells: vec![],
     });
     let g = generics_for(&obs_impl.generics, &err_names, ctx, hints)?;
     let mut fields = vec![];
+    let mut cells: Vec<String> = vec![];
     let mut root_ty: Option<Ty> = None;
     let mut newtype = false;
     if pseudo {
@@ -2414,6 +2515,9 @@ pub fn translate_observer(items: &[Item], name: &str, ctx: &mut Ctx, hints: &Has
                     }
                     let n = f.ident.as_ref().unwrap().to_string();
                     let t = sg.ty(&f.ty).map_err(|e| format!("field {}: {}", n, e))?;
+                    if is_cell_type(&f.ty, ctx) {
+                        cells.push(n.clone());
+                    }
                     fields.push((n, t));
                 }
             }
@@ -2443,7 +2547,7 @@ pub fn translate_observer(items: &[Item], name: &str, ctx: &mut Ctx, hints: &Has
         }
     }
     // signatures first (methods may call each other)
-    let mut info = StructInfo { name: name.to_string(), fields, methods: HashMap::new(), root_ty: root_ty.clone(), prefix: String::new() };
+    let mut info = StructInfo { name: name.to_string(), fields, methods: HashMap::new(), root_ty: root_ty.clone(), prefix: String::new(), cells };
     let mut sigs = vec![];
     for u in &units {
         let fname = u.f.sig.ident.to_string();
@@ -2520,6 +2624,7 @@ pub fn translate_observer(items: &[Item], name: &str, ctx: &mut Ctx, hints: &Has
             methods: info.methods.iter().map(|(k, v)| (k.clone(), v.clone())).collect(),
             root_ty: info.root_ty.clone(),
             prefix: String::new(),
+            cells: info.cells.clone(),
         },
     );
     let mut errors = vec![];
@@ -3329,6 +3434,7 @@ fn main() {
                             methods: si.methods.clone(),
                             root_ty: si.root_ty.clone(),
                             prefix: format!("Rx.Gen.{}.", imp),
+                            cells: si.cells.clone(),
                         },
                     );
                 }
@@ -3349,6 +3455,7 @@ fn main() {
                         methods,
                         root_ty: Some(Ty::Opt(Box::new(Ty::Obs))),
                         prefix: "Rx.Gen.RcObserver.".into(),
+                        cells: vec![],
                     },
                 );
             }
@@ -3396,9 +3503,19 @@ fn main() {
                 ctx.structs
                     .values()
                     .filter(|si| si.prefix.is_empty())
-                    .map(|si| StructInfo { name: si.name.clone(), fields: si.fields.clone(), methods: si.methods.clone(), root_ty: si.root_ty.clone(), prefix: String::new() })
+                    .map(|si| StructInfo { name: si.name.clone(), fields: si.fields.clone(), methods: si.methods.clone(), root_ty: si.root_ty.clone(), prefix: String::new(), cells: si.cells.clone() })
                     .collect(),
             );
+            for (tf, tobs, tfields) in ent.tasks {
+                match translate_task_fn(&items, tf, tobs, tfields, &ctx) {
+                    Ok(s) => lean += &s,
+                    Err(e) => {
+                        failed += 1;
+                        eprintln!("{}: task {}: {}", ent.file, tf, e);
+                        writeln!(lean, "-- TRANSLATION FAILED for task fn {}: {}\n", tf, e.replace('\n', " ")).unwrap();
+                    }
+                }
+            }
             for op in ent.wirings {
                 match translate_wiring(&items, op, ent.observers) {
                     Ok(s) => lean += &s,
